@@ -97,7 +97,7 @@ add("C19", True,
     "Generated matrices (mixed magnitudes, -0.0, half-way decimals, zero rows) under all FormatOptions combinations and precisions, and generated trees (holes in the index space) for Display and Dot: every shown coefficient must sit next to the index of the variable it multiplies and equal the stored (normalised) value at the printed precision, signs, inequality direction and bias must match, omissions must be marked by exactly one ellipsis at the right place with sorted order/bracketing respected, and the tree/DOT output must contain exactly one statement per node and per raw (parent,label,child) edge with the node's own function.",
     "Trusted: the output grammar of DESIGN.md Appendix B and the 150-line parser in harness/src/props/c19.rs; DOT shape attributes are outside the statement.", "DESIGN.md 6/C19")
 
-FUZZ = {"C10", "C12", "C13", "C15", "C19"}
+FUZZ = {"C02", "C03", "C04", "C06", "C07", "C08", "C09", "C10", "C12", "C13", "C15", "C19"}
 
 PENDING_REASON = "check not built yet in this round (planned; see DESIGN.md Appendix D) - no claim is made"
 
